@@ -52,6 +52,10 @@ class HookError(Exception):
     """what a misbehaving service's on_disconnect raises"""
 
 
+class Tagged(object):
+    tag = 7
+
+
 class Svc(rpyc.Service):
     def __init__(self, name, hook_raises=False):
         self.name, self.hooks, self.kept, self.hook_raises = name, 0, [], hook_raises
@@ -63,6 +67,7 @@ class Svc(rpyc.Service):
 
     def exposed_add(self, a, b): return a + b
     def exposed_mk(self): return [1, 2, 3]
+    def exposed_mkobj(self): return Tagged()      # an instance of a user class: the requester asks for its class (nested request) while it rebuilds the reply
     def exposed_keep(self, o): self.kept.append(o); return len(self.kept)
     def exposed_nested(self, x, cb): return cb(x) + 1
     def exposed_fire(self, x, cb): rpyc.async_(cb)(x); return x * 2
@@ -89,7 +94,7 @@ class Fault:
 
 
 class FStream(MemStream):
-    __slots__ = ("plan", "hit")
+    __slots__ = ("plan", "hit", "note")
 
     def write(self, data):
         p = self.plan
@@ -101,6 +106,7 @@ class FStream(MemStream):
             if self.peer is not None and not self.peer._closed:
                 self.peer.inbox += data[:k]
             self.hit = True
+            self.note()
             self.close()
             raise EOFError("injected partial write (%d of %d bytes)" % (k, len(data)))
         return MemStream.write(self, data)
@@ -116,6 +122,7 @@ def make_pair(plan, clock, hook_raises=False, bc_raises=False):
         def f(kind, i):
             if plan and plan.side == s.name and plan.index == i and plan.partial is None:
                 s.hit = True
+                s.note()
                 return True
             return False
         return f
@@ -130,6 +137,23 @@ def make_pair(plan, clock, hook_raises=False, bc_raises=False):
     disp_eof = {"A": False, "B": False}
     must = {"A": set(), "B": set()}
     checks = []
+    depth = {"A": 0, "B": 0}
+
+    def noter(nm):
+        # a transport call of this side fails while the side is inside serve(): whatever the failing call belonged to (reading, a reply,
+        # a nested request made while rebuilding a reply - anything but a finalizer's release notice), serve() is where the end of the
+        # connection is noticed - the side must end closed and clean
+        def note():
+            if depth[nm] <= 0:
+                return
+            f = sys._getframe(1)
+            while f is not None:
+                if f.f_code.co_name == "__del__":
+                    return          # a release notice sent by a proxy's finalizer: finalizers swallow their errors by design, the side
+                f = f.f_back        # notices the dead stream at its next poll (not at this call)
+            must[nm].add("fault-inside-serve")
+        return note
+    sa.note, sb.note = noter("A"), noter("B")
 
     def instrument(name, conn, svc, ctx_of_serve):
         orig_close, orig_serve, orig_dispatch, orig_areq = conn.close, conn.serve, conn._dispatch, conn._async_request
@@ -165,6 +189,7 @@ def make_pair(plan, clock, hook_raises=False, bc_raises=False):
 
         def serve(timeout=1, wait_for_lock=True):
             disp_eof[name] = False
+            depth[name] += 1
             try:
                 return orig_serve(timeout, wait_for_lock)
             except EOFError:
@@ -176,6 +201,8 @@ def make_pair(plan, clock, hook_raises=False, bc_raises=False):
                 if not c:
                     checks.append((name, "after EOFError out of serve()", snapshot(conn, svc)))
                 raise
+            finally:
+                depth[name] -= 1
         conn.close, conn.serve, conn._dispatch = close, serve, dispatch
     return A, B, sa, sb, log, must, checks, instrument
 
@@ -186,7 +213,7 @@ def snapshot(conn, svc):
             "pending": len(conn._request_callbacks)}
 
 
-WORKLOADS = ["sync", "async", "nested", "refs", "fire", "closeinhandler", "pendingclose"]
+WORKLOADS = ["sync", "async", "nested", "refs", "newobj", "fire", "closeinhandler", "pendingclose"]
 CLOSES = ["AB", "BA", "A|B", "B|A", "A", "B", "none"]
 
 
@@ -302,6 +329,9 @@ def run_case(workload, closes, plan, hook_raises=False, bc_raises=False):
                 n = A.root.keep(local_obj)
                 return (len(lst), n)
             req("refs", f, (4, 1))
+        elif workload == "newobj":
+            req("newobj", lambda: A.root.mkobj().tag, 7)
+            req("add", lambda: A.root.add(2, 3), 5)
         elif workload == "closeinhandler":
             req("bye", lambda: A.root.bye(), "bye")           # value (if the reply got out first) or EOFError; never a hang
             req("after", lambda: A.root.add(1, 2), 3)
@@ -621,7 +651,7 @@ def run(ctx):
     facts = gen_facts()
     close_serving_phase(ctx, model, facts)
     hook_closes_again_phase(ctx)
-    ctx.coverage_extra["rule"] = ("workloads {sync, async, nested callback, references both ways, fire-and-forget callback} x close orders {AB, BA, A, B, none}; for each a clean run counts the "
+    ctx.coverage_extra["rule"] = ("workloads {sync, async, nested callback, references both ways, a result of a class not seen before (nested class request while the reply is rebuilt), fire-and-forget callback} x close orders {AB, BA, A, B, none}; for each a clean run counts the "
                                   "(AB/BA: the second side closes after it has noticed; A|B, B|A: both close at once, each with the other's close request unread) - a clean run counts the "
                                   "transport calls of both sides, then one failure is injected at every individual poll/read/write call index of each side, and for writes additionally after "
                                   "k bytes of the packet (quick: k in {0,1,7,13}; thorough: a dozen offsets up to 40); non-trivial = a fault was actually hit; distinct by (workload, closes, fault)")
